@@ -180,16 +180,29 @@ def strip_lean_comments(src):
 FORBIDDEN = re.compile(r"\b(sorry|admit|native_decide|bv_decide|implemented_by|unsafe)\b|^\s*axiom\s|maxHeartbeats\s+0\b", re.M)
 
 
+def import_closure(prop_id):
+    """Lean source files the property module depends on (transitively, within this project)"""
+    seen, todo = set(), ["FerrousSpec.Props." + prop_id]
+    while todo:
+        m = todo.pop()
+        if m in seen:
+            continue
+        path = os.path.join(LEAN, *m.split(".")) + ".lean"
+        if not os.path.exists(path):
+            continue
+        seen.add(m)
+        for imp in re.findall(r"^import\s+(FerrousSpec\.\S+)", open(path).read(), re.M):
+            todo.append(imp)
+    return [os.path.join(LEAN, *m.split(".")) + ".lean" for m in sorted(seen)]
+
+
 def forbidden_tokens(prop_id):
-    """grep the Lean sources (comments discarded) for constructs the design forbids."""
+    """grep the Lean sources this property depends on (comments discarded) for constructs the design forbids"""
     hits = []
-    for root, _, files in os.walk(os.path.join(LEAN, "FerrousSpec")):
-        for f in files:
-            if f.endswith(".lean"):
-                p = os.path.join(root, f)
-                src = strip_lean_comments(open(p).read())
-                for m in FORBIDDEN.finditer(src):
-                    hits.append("%s: %s" % (os.path.relpath(p, LEAN), m.group(0).strip()))
+    for p in import_closure(prop_id):
+        src = strip_lean_comments(open(p).read())
+        for m in FORBIDDEN.finditer(src):
+            hits.append("%s: %s" % (os.path.relpath(p, LEAN), m.group(0).strip()))
     return hits
 
 
